@@ -588,6 +588,222 @@ func GenCond(r *hx.Rng) *CProgram {
 	return p
 }
 
+
+// ---- multi-program rendering (interfaces and composite in different contracts) ----
+
+func confSrcQ(cs []int, split int, inB bool) string {
+	if len(cs) == 0 {
+		return ""
+	}
+	parts := make([]string, len(cs))
+	for i, c := range cs {
+		if inB && c < split {
+			parts[i] = fmt.Sprintf("CA.I%d", c)
+		} else {
+			parts[i] = fmt.Sprintf("I%d", c)
+		}
+	}
+	return ": " + strings.Join(parts, ", ")
+}
+
+func (p *CProgram) ifaceSrc(b *strings.Builder, i int, split int, inB bool) {
+	it := p.Ifaces[i]
+	b.WriteString(fmt.Sprintf("access(all) struct interface I%d%s {\n", i, confSrcQ(it.Conforms, split, inB)))
+	b.WriteString("  access(all) var a: Int\n  access(all) var b: Int\n")
+	for _, f := range it.Funs {
+		b.WriteString(funSrc(f.Name, f.Conds, f.Dflt))
+	}
+	b.WriteString("}\n")
+}
+
+// SrcMulti renders the program as two contracts and a script: contract CA (at address addrA) declares
+// the interfaces I0..I(split-1), contract CB imports CA and declares the remaining interfaces and the
+// composite S; the script imports CB (from addrB) and runs the calls of main.  Each contract has its own
+// event E (an imported event cannot be emitted).  The program (and so its S-expression) is the same.
+func (p *CProgram) SrcMulti(split int, addrA, addrB string) (srcA, srcB, script string) {
+	if split > len(p.Ifaces) {
+		split = len(p.Ifaces)
+	}
+	var a, b, m strings.Builder
+	a.WriteString("access(all) contract CA {\naccess(all) event E(id: Int)\n")
+	for i := 0; i < split; i++ {
+		p.ifaceSrc(&a, i, split, false)
+	}
+	a.WriteString("}\n")
+	b.WriteString("import CA from " + addrA + "\naccess(all) contract CB {\naccess(all) event E(id: Int)\n")
+	for i := split; i < len(p.Ifaces); i++ {
+		p.ifaceSrc(&b, i, split, true)
+	}
+	b.WriteString("access(all) struct S" + confSrcQ(p.Conforms, split, true) + " {\n")
+	b.WriteString("  access(all) var a: Int\n  access(all) var b: Int\n")
+	b.WriteString(fmt.Sprintf("  init() { self.a = %s; self.b = %s }\n", (&CIExp{Op: "lit", N: p.A0}).Src(), (&CIExp{Op: "lit", N: p.B0}).Src()))
+	for _, f := range p.Funs {
+		b.WriteString(funSrc(f.Name, f.Conds, f.Body))
+	}
+	b.WriteString("}\n}\n")
+	m.WriteString("import CB from " + addrB + "\naccess(all) fun main() {\n  var s = CB.S()\n")
+	for _, c := range p.Main {
+		m.WriteString(fmt.Sprintf("  log(s.%s(%s, %s))\n", c.Fn, (&CIExp{Op: "lit", N: c.X}).Src(), (&CIExp{Op: "lit", N: c.Y}).Src()))
+	}
+	m.WriteString("}\n")
+	return a.String(), b.String(), m.String()
+}
+
+// ---- directed family: inherited and own post-conditions both capture `before` values ----
+
+func (g *condGen) beforeSub() *CIExp {
+	switch g.r.Intn(7) {
+	case 0, 1:
+		return &CIExp{Op: "a"}
+	case 2, 3:
+		return &CIExp{Op: "b"}
+	case 4:
+		return &CIExp{Op: "add", L: &CIExp{Op: "a"}, R: &CIExp{Op: "b"}}
+	case 5:
+		return &CIExp{Op: "sub", L: &CIExp{Op: "b"}, R: &CIExp{Op: "x"}}
+	}
+	return &CIExp{Op: "mul", L: &CIExp{Op: "a"}, R: &CIExp{Op: "lit", N: 2}}
+}
+
+func cBefore(e *CIExp) *CIExp { return &CIExp{Op: "before", L: e} }
+
+// one post-condition that reads a captured value; `own` allows the always-false shape
+func (g *condGen) beforeCond(own bool) CCond {
+	v := &CIExp{Op: []string{"a", "b"}[g.r.Intn(2)]}
+	d := &CIExp{Op: []string{"x", "y"}[g.r.Intn(2)]}
+	switch g.r.Intn(8) {
+	case 0, 1:
+		return CCond{Emit: cBefore(g.beforeSub())}
+	case 2:
+		return CCond{Emit: &CIExp{Op: "sub", L: v, R: cBefore(v)}}
+	case 3: // holds when the body adds the argument to the field
+		return CCond{Test: &CBExp{Op: "eq", IL: v, IR: &CIExp{Op: "add", L: cBefore(v), R: d}}}
+	case 4:
+		return CCond{Test: &CBExp{Op: "le", IL: cBefore(g.beforeSub()), IR: &CIExp{Op: "add", L: g.beforeSub(), R: g.lit()}}}
+	case 5:
+		return CCond{Test: &CBExp{Op: "lt", IL: cBefore(&CIExp{Op: "a"}), IR: cBefore(&CIExp{Op: "b"})}}
+	case 6:
+		if own { // false in every state: e < e
+			g.forms["const-false"] = true
+			g.forms["const-false-before"] = true
+			e := g.beforeSub()
+			return CCond{Test: &CBExp{Op: "lt", IL: cBefore(e), IR: cBefore(e)}}
+		}
+		return CCond{Test: &CBExp{Op: "le", IL: cBefore(&CIExp{Op: "a"}), IR: cBefore(&CIExp{Op: "b"})}}
+	}
+	return CCond{Test: &CBExp{Op: "eq", IL: cBefore(v), IR: &CIExp{Op: "sub", L: v, R: d}}}
+}
+
+func (g *condGen) beforePost(own bool) []CCond {
+	g.id++
+	cs := []CCond{{Emit: &CIExp{Op: "lit", N: g.id}}}
+	n := 1 + g.r.Intn(2)
+	for i := 0; i < n; i++ {
+		cs = append(cs, g.beforeCond(own))
+	}
+	return cs
+}
+
+func (g *condGen) beforeBody() *CStmt {
+	var s *CStmt
+	n := 1 + g.r.Intn(2)
+	for i := 0; i < n; i++ {
+		var t *CStmt
+		switch g.r.Intn(4) {
+		case 0:
+			t = &CStmt{Op: "setA", E: &CIExp{Op: "add", L: &CIExp{Op: "a"}, R: &CIExp{Op: "x"}}}
+		case 1:
+			t = &CStmt{Op: "setB", E: &CIExp{Op: "add", L: &CIExp{Op: "b"}, R: &CIExp{Op: "y"}}}
+		case 2:
+			t = &CStmt{Op: "setA", E: &CIExp{Op: "add", L: &CIExp{Op: "a"}, R: g.lit()}}
+		default:
+			t = &CStmt{Op: "setB", E: &CIExp{Op: "sub", L: &CIExp{Op: "b"}, R: &CIExp{Op: "x"}}}
+		}
+		if s == nil {
+			s = t
+		} else {
+			s = &CStmt{Op: "seq", S: s, T: t}
+		}
+	}
+	return &CStmt{Op: "seq", S: s, T: &CStmt{Op: "ret", E: &CIExp{Op: "add", L: &CIExp{Op: "a"}, R: &CIExp{Op: "b"}}}}
+}
+
+// GenCondBefore generates a program in which every interface (a chain or a diamond of one to three)
+// declares the functions with post-conditions that capture `before` values, the composite implements
+// them with own post-conditions capturing other `before` values, and the two fields start different.
+func GenCondBefore(r *hx.Rng) *CProgram {
+	g := &condGen{r: r, forms: map[string]bool{"before": true, "before-own-and-inherited": true}}
+	p := &CProgram{Forms: g.forms}
+	names := []string{"f", "g"}[:1+r.Intn(2)]
+	nIf := 1 + r.Intn(3)
+	// oracle shape: every inherited post-condition block starts with `before(a) < before(b)` (true for
+	// the start values), every own one with `before(e) < before(e)` (false in every state); one call
+	oracle := r.Chance(25)
+	aLtB := CCond{Test: &CBExp{Op: "lt", IL: cBefore(&CIExp{Op: "a"}), IR: cBefore(&CIExp{Op: "b"})}}
+	for i := 0; i < nIf; i++ {
+		var it CIface
+		for j := 0; j < i; j++ {
+			if r.Chance(60) {
+				it.Conforms = append(it.Conforms, j)
+			}
+		}
+		for _, n := range names {
+			if i > 0 && !r.Chance(70) {
+				continue
+			}
+			f := CIFun{Name: n}
+			if r.Chance(30) {
+				g.id++
+				f.Conds.Pre = []CCond{{Emit: &CIExp{Op: "lit", N: g.id}}}
+			}
+			f.Conds.Post = g.beforePost(false)
+			if oracle {
+				f.Conds.Post = []CCond{f.Conds.Post[0], aLtB, {Emit: cBefore(g.beforeSub())}}
+			}
+			it.Funs = append(it.Funs, f)
+		}
+		p.Ifaces = append(p.Ifaces, it)
+	}
+	p.Conforms = []int{nIf - 1}
+	for j := nIf - 2; j >= 0; j-- {
+		if r.Chance(40) {
+			p.Conforms = append(p.Conforms, j)
+		}
+	}
+	vals := []int64{0, 1, 2, 3, 5, 6, 7, -1, -2}
+	p.A0 = vals[r.Intn(len(vals))]
+	p.B0 = vals[r.Intn(len(vals))]
+	if p.A0 == p.B0 {
+		p.B0 = p.A0 + 1
+	}
+	if oracle && p.A0 > p.B0 {
+		p.A0, p.B0 = p.B0, p.A0
+	}
+	for _, n := range names {
+		f := CCFun{Name: n, Body: g.beforeBody()}
+		f.Conds.Post = g.beforePost(true)
+		if oracle {
+			g.forms["const-false"] = true
+			g.forms["const-false-before"] = true
+			e := g.beforeSub()
+			f.Conds.Post = []CCond{f.Conds.Post[0], {Test: &CBExp{Op: "lt", IL: cBefore(e), IR: cBefore(e)}}}
+		}
+		if r.Chance(30) {
+			g.id++
+			f.Conds.Pre = []CCond{{Emit: &CIExp{Op: "lit", N: g.id}}}
+		}
+		p.Funs = append(p.Funs, f)
+	}
+	nCalls := 1 + r.Intn(2)
+	if oracle {
+		nCalls = 1
+	}
+	for i := 0; i < nCalls; i++ {
+		p.Main = append(p.Main, CCall{Fn: names[r.Intn(len(names))], X: g.lit().N, Y: g.lit().N})
+	}
+	return p
+}
+
 // FormList returns the sorted form tags of the program.
 func (p *CProgram) FormList() []string {
 	var fs []string
